@@ -427,6 +427,9 @@ func listTerm(fd protoreflect.FieldDescriptor) string {
 }
 
 func keyTerm(fd protoreflect.FieldDescriptor) string {
+	if fd.IsMap() {
+		fd = fd.MapValue() // the item's annotations are on the value field of the entry
+	}
 	if !proto.HasExtension(fd.Options(), ext_j5pb.E_Key) {
 		return "None"
 	}
